@@ -276,6 +276,9 @@ func init() {
 			cfg := eng.GenConfig(r, pickBacking(r, "none", "store", "store", "store", "custom"), true)
 			gp := eng.GenParams{MinBatches: 3, MaxBatches: 16, NKeys: 4 + r.Intn(6), Park: true, Reopen: true, Merge: true,
 				Children: cfg.Backing != "custom" && r.Chance(1, 2), Idle: true, QuietPct: 30, CrossBias: true, BytelessPct: 4}
+			if idx%4 == 3 {
+				gp.RefusePct = 20 // the operator refuses for a while; the operands must still fold once, in order
+			}
 			if idx%5 == 2 {
 				eng.PartialCompactionProfile(r, &cfg, &gp)
 			}
@@ -333,6 +336,9 @@ func init() {
 			merge := r.Chance(2, 3)
 			cfg := eng.GenConfig(r, "custom", merge)
 			gp := eng.GenParams{MinBatches: 4, MaxBatches: 18, NKeys: 4 + r.Intn(8), Park: r.Chance(2, 3), Merge: merge, Idle: true, QuietPct: 25, CrossBias: true}
+			if idx%4 == 3 {
+				gp.RefusePct = 15
+			}
 			p := eng.GenProgram(r, "C13", cfg, gp)
 			p.Steps = append(p.Steps, eng.Step{K: "drain"}, eng.Step{K: "drain"}, eng.Step{K: "lowerfinal"})
 			return p
@@ -368,6 +374,13 @@ func init() {
 			cfg.KeepFiles = false
 			gp := eng.GenParams{MinBatches: 4, MaxBatches: 14, NKeys: 6 + r.Intn(8), Park: r.Chance(1, 3), Handles: true, StoreHandles: true,
 				Children: r.Chance(1, 3), TailClose: r.Chance(1, 2), Reopen: r.Chance(1, 4), Idle: true}
+			if idx%4 == 1 {
+				// error paths release what they hold, too: a merge operator
+				// that refuses to merge for some merger cycles
+				cfg.MergeOp = true
+				gp.Merge = true
+				gp.RefusePct = 30
+			}
 			return eng.GenProgram(r, "C15", cfg, gp)
 		},
 		units: func(p *eng.Program, res *eng.Result, add func(string)) {
